@@ -23,14 +23,14 @@ open Zl Zl.LL
 /-! ### statuses -/
 
 /-- a body returns only a status that is written in it -/
-theorem evalS_mem_statuses (v : View) : ∀ (s : Stmt) (st : Status), evalS v s = some st → st ∈ s.statuses := by
+theorem evalS_mem_statuses (env : Env) (v : View) : ∀ (s : Stmt) (st : Status), evalS env v s = some st → st ∈ s.statuses := by
   intro s
   induction s with
   | ret s0 => intro st h; simp [evalS] at h; simp [Stmt.statuses, h]
   | ite c t e iht ihe =>
     intro st h
     simp only [evalS] at h
-    cases hc : evalC v c with
+    cases hc : evalC env v c with
     | none => simp [hc] at h
     | some b =>
       cases b with
@@ -38,18 +38,18 @@ theorem evalS_mem_statuses (v : View) : ∀ (s : Stmt) (st : Status), evalS v s 
       | false => simp only [hc] at h; simp [Stmt.statuses, ihe st h]
 
 /-- what a rule can answer: a panic, "not applicable", or one of the statuses written in its body -/
-theorem run_cases (r : Rule) (v : View) :
-    r.run v = .panic ∨ r.run v = .notApplicable ∨ ∃ s ∈ r.body.statuses, r.run v = .result s := by
+theorem run_cases (env : Env) (r : Rule) (v : View) :
+    r.run env v = .panic ∨ r.run env v = .notApplicable ∨ ∃ s ∈ r.body.statuses, r.run env v = .result s := by
   unfold Rule.run
-  cases ha : evalC v r.applies with
+  cases ha : evalC env v r.applies with
   | none => simp
   | some b =>
     cases b with
     | false => simp
     | true =>
-      cases hb : evalS v r.body with
+      cases hb : evalS env v r.body with
       | none => simp
-      | some s => exact Or.inr (Or.inr ⟨s, evalS_mem_statuses v _ s hb, by simp⟩)
+      | some s => exact Or.inr (Or.inr ⟨s, evalS_mem_statuses env v _ s hb, by simp⟩)
 
 /-! ### the guard analysis is sound -/
 
@@ -61,8 +61,8 @@ theorem present_append {v : View} {a b : List Oid} (ha : Present v a) (hb : Pres
   · exact ha o h
   · exact hb o h
 
-theorem facts_sound (v : View) : ∀ c : Cond,
-    (evalC v c = some true → Present v c.posFacts) ∧ (evalC v c = some false → Present v c.negFacts) := by
+theorem facts_sound (env : Env) (v : View) : ∀ c : Cond,
+    (evalC env v c = some true → Present v c.posFacts) ∧ (evalC env v c = some false → Present v c.negFacts) := by
   intro c
   induction c with
   | const b => constructor <;> intro _ o ho <;> simp [Cond.posFacts, Cond.negFacts] at ho
@@ -116,7 +116,7 @@ theorem facts_sound (v : View) : ∀ c : Cond,
     constructor
     · intro h
       simp only [evalC] at h
-      cases ha : evalC v a with
+      cases ha : evalC env v a with
       | none => simp [ha] at h
       | some x =>
         cases x with
@@ -127,7 +127,7 @@ theorem facts_sound (v : View) : ∀ c : Cond,
     · intro h o ho
       simp only [Cond.negFacts, List.mem_filter, List.contains_eq_mem, decide_eq_true_eq] at ho
       simp only [evalC] at h
-      cases ha : evalC v a with
+      cases ha : evalC env v a with
       | none => simp [ha] at h
       | some x =>
         cases x with
@@ -138,7 +138,7 @@ theorem facts_sound (v : View) : ∀ c : Cond,
     · intro h o ho
       simp only [Cond.posFacts, List.mem_filter, List.contains_eq_mem, decide_eq_true_eq] at ho
       simp only [evalC] at h
-      cases ha : evalC v a with
+      cases ha : evalC env v a with
       | none => simp [ha] at h
       | some x =>
         cases x with
@@ -146,7 +146,7 @@ theorem facts_sound (v : View) : ∀ c : Cond,
         | false => simp only [ha] at h; exact ihb.1 h o ho.2
     · intro h
       simp only [evalC] at h
-      cases ha : evalC v a with
+      cases ha : evalC env v a with
       | none => simp [ha] at h
       | some x =>
         cases x with
@@ -156,7 +156,7 @@ theorem facts_sound (v : View) : ∀ c : Cond,
           simpa [Cond.negFacts] using present_append (iha.2 ha) (ihb.2 h)
 
 /-- a condition that passes the guard analysis does not panic when the extensions it relies on are present -/
-theorem safeC_sound (v : View) : ∀ (c : Cond) (g : List Oid), Present v g → c.safe g = true → (evalC v c).isSome = true := by
+theorem safeC_sound (env : Env) (v : View) : ∀ (c : Cond) (g : List Oid), Present v g → c.safe g = true → (evalC env v c).isSome = true := by
   intro c
   induction c with
   | crit o =>
@@ -168,29 +168,29 @@ theorem safeC_sound (v : View) : ∀ (c : Cond) (g : List Oid), Present v g → 
     simp only [Cond.safe] at hs
     have := ih g hg hs
     simp only [evalC]
-    cases h : evalC v c <;> simp_all
+    cases h : evalC env v c <;> simp_all
   | and a b iha ihb =>
     intro g hg hs
     simp only [Cond.safe, Bool.and_eq_true] at hs
     have h1 := iha g hg hs.1
     simp only [evalC]
-    cases ha : evalC v a with
+    cases ha : evalC env v a with
     | none => simp [ha] at h1
     | some x =>
       cases x with
       | false => simp
-      | true => exact ihb _ (present_append ((facts_sound v a).1 ha) hg) hs.2
+      | true => exact ihb _ (present_append ((facts_sound env v a).1 ha) hg) hs.2
   | or a b iha ihb =>
     intro g hg hs
     simp only [Cond.safe, Bool.and_eq_true] at hs
     have h1 := iha g hg hs.1
     simp only [evalC]
-    cases ha : evalC v a with
+    cases ha : evalC env v a with
     | none => simp [ha] at h1
     | some x =>
       cases x with
       | true => simp
-      | false => exact ihb _ (present_append ((facts_sound v a).2 ha) hg) hs.2
+      | false => exact ihb _ (present_append ((facts_sound env v a).2 ha) hg) hs.2
   | const b => intros; simp [evalC]
   | bool f => intros; simp [evalC]
   | int f c k => intros; simp [evalC]
@@ -207,41 +207,41 @@ theorem safeC_sound (v : View) : ∀ (c : Cond) (g : List Oid), Present v g → 
   | anyI f is => intros; simp [evalC]
   | ext o => intros; simp [evalC]
 
-theorem safeS_sound (v : View) : ∀ (s : Stmt) (g : List Oid), Present v g → s.safe g = true → (evalS v s).isSome = true := by
+theorem safeS_sound (env : Env) (v : View) : ∀ (s : Stmt) (g : List Oid), Present v g → s.safe g = true → (evalS env v s).isSome = true := by
   intro s
   induction s with
   | ret s0 => intros; simp [evalS]
   | ite c t e iht ihe =>
     intro g hg hs
     simp only [Stmt.safe, Bool.and_eq_true] at hs
-    have h1 := safeC_sound v c g hg hs.1.1
+    have h1 := safeC_sound env v c g hg hs.1.1
     simp only [evalS]
-    cases hc : evalC v c with
+    cases hc : evalC env v c with
     | none => simp [hc] at h1
     | some x =>
       cases x with
-      | true => exact iht _ (present_append ((facts_sound v c).1 hc) hg) hs.1.2
-      | false => exact ihe _ (present_append ((facts_sound v c).2 hc) hg) hs.2
+      | true => exact iht _ (present_append ((facts_sound env v c).1 hc) hg) hs.1.2
+      | false => exact ihe _ (present_append ((facts_sound env v c).2 hc) hg) hs.2
 
 /-- **A rule that passes the guard analysis never panics, on any view**: `CheckApplies` returns, and
     `Execute` returns whenever `CheckApplies` answered true. -/
-theorem safe_never_panics (r : Rule) (h : r.safe = true) (v : View) : r.run v ≠ .panic := by
+theorem safe_never_panics (env : Env) (r : Rule) (h : r.safe = true) (v : View) : r.run env v ≠ .panic := by
   simp only [Rule.safe, Bool.and_eq_true] at h
-  have ha := safeC_sound v r.applies [] (by intro o ho; simp at ho) h.1
+  have ha := safeC_sound env v r.applies [] (by intro o ho; simp at ho) h.1
   unfold Rule.run
-  cases hap : evalC v r.applies with
+  cases hap : evalC env v r.applies with
   | none => simp [hap] at ha
   | some b =>
     cases b with
     | false => simp
     | true =>
-      have hb := safeS_sound v r.body _ ((facts_sound v r.applies).1 hap) h.2
-      cases hbo : evalS v r.body with
+      have hb := safeS_sound env v r.body _ ((facts_sound env v r.applies).1 hap) h.2
+      cases hbo : evalS env v r.body with
       | none => simp [hbo] at hb
       | some s => simp
 
 /-- the guard is needed: the unguarded dereference panics on a view without the extension -/
-example : ({ name := "x", nameB := [], applies := .const true, body := .ite (.crit [2, 5, 29, 15]) (.ret 3) (.ret 6) } : Rule).run {} = .panic := by
+example : ({ name := "x", nameB := [], applies := .const true, body := .ite (.crit [2, 5, 29, 15]) (.ret 3) (.ret 6) } : Rule).run ⟨fun _ _ => none, fun _ _ => false⟩ {} = .panic := by
   decide
 
 /-! ### evaluation depends on the view only through what a term mentions, as sets -/
@@ -267,7 +267,7 @@ theorem any_congr_mem {α : Type} (p : α → Bool) (l l' : List α) (h : ∀ x,
   · rintro ⟨x, hx, hp⟩; exact ⟨x, (h x).mp hx, hp⟩
   · rintro ⟨x, hx, hp⟩; exact ⟨x, (h x).mpr hx, hp⟩
 
-theorem evalC_similar {v w : View} (h : Similar v w) : ∀ c : Cond, evalC v c = evalC w c := by
+theorem evalC_similar (env : Env) {v w : View} (h : Similar v w) : ∀ c : Cond, evalC env v c = evalC env w c := by
   intro c
   induction c with
   | const b => rfl
@@ -290,18 +290,18 @@ theorem evalC_similar {v w : View} (h : Similar v w) : ∀ c : Cond, evalC v c =
   | and a b iha ihb => simp [evalC, iha, ihb]
   | or a b iha ihb => simp [evalC, iha, ihb]
 
-theorem evalS_similar {v w : View} (h : Similar v w) : ∀ s : Stmt, evalS v s = evalS w s := by
+theorem evalS_similar (env : Env) {v w : View} (h : Similar v w) : ∀ s : Stmt, evalS env v s = evalS env w s := by
   intro s
   induction s with
   | ret s0 => rfl
-  | ite c t e iht ihe => simp [evalS, evalC_similar h c, iht, ihe]
+  | ite c t e iht ihe => simp [evalS, evalC_similar env h c, iht, ihe]
 
 /-- **Order independence of every translated rule** (C17): permuting the elements of any list field
     (SAN entries, policy identifiers, EKUs, subject attribute types, …) — or replacing a list by any list with
     the same elements — changes no rule's answer. The extension map has no order to begin with. -/
-theorem run_similar (r : Rule) {v w : View} (h : Similar v w) : r.run v = r.run w := by
+theorem run_similar (env : Env) (r : Rule) {v w : View} (h : Similar v w) : r.run env v = r.run env w := by
   unfold Rule.run
-  rw [evalC_similar h, evalS_similar h]
+  rw [evalC_similar env h, evalS_similar env h]
 
 /-- permuted list fields are `Similar` -/
 theorem similar_of_perm (v : View) (f0 : Nat) (lv : ListVal) (strs' : List Bytes) (oids' : List Oid) (ints' : List Int)
@@ -345,7 +345,7 @@ structure Mirrors (ρ : Nat → Nat) (σ : Oid → Oid) (v w : View) : Prop wher
   times : ∀ f, w.time f = v.time (ρ f)
   exts : ∀ o, w.ext? o = v.ext? (σ o)
 
-theorem evalC_rename {ρ σ} {v w : View} (h : Mirrors ρ σ v w) : ∀ c : Cond, evalC v (c.rename ρ σ) = evalC w c := by
+theorem evalC_rename (env : Env) {ρ σ} {v w : View} (h : Mirrors ρ σ v w) : ∀ c : Cond, evalC env v (c.rename ρ σ) = evalC env w c := by
   intro c
   induction c with
   | const b => rfl
@@ -368,25 +368,25 @@ theorem evalC_rename {ρ σ} {v w : View} (h : Mirrors ρ σ v w) : ∀ c : Cond
   | and a b iha ihb => simp [Cond.rename, evalC, iha, ihb]
   | or a b iha ihb => simp [Cond.rename, evalC, iha, ihb]
 
-theorem evalS_rename {ρ σ} {v w : View} (h : Mirrors ρ σ v w) : ∀ s : Stmt, evalS v (s.rename ρ σ) = evalS w s := by
+theorem evalS_rename (env : Env) {ρ σ} {v w : View} (h : Mirrors ρ σ v w) : ∀ s : Stmt, evalS env v (s.rename ρ σ) = evalS env w s := by
   intro s
   induction s with
   | ret s0 => rfl
-  | ite c t e iht ihe => simp [Stmt.rename, evalS, evalC_rename h c, iht, ihe]
+  | ite c t e iht ihe => simp [Stmt.rename, evalS, evalC_rename env h c, iht, ihe]
 
 /-- **A rule whose terms are the renamed terms of its twin answers, on any certificate, what the twin answers on
     the mirror-image certificate** (C20 for duplicated rules inside the fragment). -/
-theorem twin_agrees (a b : Rule) (ρ : Nat → Nat) (σ : Oid → Oid)
+theorem twin_agrees (env : Env) (a b : Rule) (ρ : Nat → Nat) (σ : Oid → Oid)
     (ha : b.applies = a.applies.rename ρ σ) (hb : b.body = a.body.rename ρ σ) {v w : View} (h : Mirrors ρ σ v w) :
-    b.run v = a.run w := by
+    b.run env v = a.run env w := by
   unfold Rule.run
-  rw [ha, hb, evalC_rename h, evalS_rename h]
+  rw [ha, hb, evalC_rename env h, evalS_rename env h]
 
 /-- in particular, on a certificate that is its own mirror image (the two fields carry the same content) both
     twins reach the same conclusion -/
-theorem twin_agrees_same (a b : Rule) (ρ : Nat → Nat) (σ : Oid → Oid)
+theorem twin_agrees_same (env : Env) (a b : Rule) (ρ : Nat → Nat) (σ : Oid → Oid)
     (ha : b.applies = a.applies.rename ρ σ) (hb : b.body = a.body.rename ρ σ) {v : View} (h : Mirrors ρ σ v v) :
-    b.run v = a.run v := twin_agrees a b ρ σ ha hb h
+    b.run env v = a.run env v := twin_agrees env a b ρ σ ha hb h
 
 /-! ### the regenerated table -/
 open Generated
@@ -403,8 +403,8 @@ def prefixOfName : Bytes → Nat
 theorem all_rules_safe : bodyRules.all Rule.safe = true := by decide +kernel
 
 /-- for every translated rule and every view: no panic (C02, for the bodies inside the fragment) -/
-theorem translated_rules_never_panic (r : Rule) (hr : r ∈ bodyRules) (v : View) : r.run v ≠ .panic :=
-  safe_never_panics r (List.all_eq_true.mp all_rules_safe r hr) v
+theorem translated_rules_never_panic (env : Env) (r : Rule) (hr : r ∈ bodyRules) (v : View) : r.run env v ≠ .panic :=
+  safe_never_panics env r (List.all_eq_true.mp all_rules_safe r hr) v
 
 /-- **Every status written in a translated body respects the prefix rule**, except exactly the committed
     known findings. With `run_cases` this is C06 for these lints on every certificate. -/
@@ -412,9 +412,9 @@ theorem all_rules_severity :
     bodyRules.all (fun r => r.body.statuses.all (fun s => allowedStatus (prefixOfName r.nameB) s || r.knownBad.contains s)) = true := by
   decide +kernel
 
-theorem translated_rules_severity (r : Rule) (hr : r ∈ bodyRules) (v : View) (s : Status)
-    (h : r.run v = .result s) : allowedStatus (prefixOfName r.nameB) s = true ∨ s ∈ r.knownBad := by
-  rcases run_cases r v with h1 | h1 | ⟨s', hs', h1⟩
+theorem translated_rules_severity (env : Env) (r : Rule) (hr : r ∈ bodyRules) (v : View) (s : Status)
+    (h : r.run env v = .result s) : allowedStatus (prefixOfName r.nameB) s = true ∨ s ∈ r.knownBad := by
+  rcases run_cases env r v with h1 | h1 | ⟨s', hs', h1⟩
   · rw [h1] at h; cases h
   · rw [h1] at h; cases h
   · rw [h1] at h
@@ -464,9 +464,18 @@ theorem san_ian_twins :
     ∧ isTwin "e_san_dns_name_starts_with_period" "e_ian_dns_name_starts_with_period" (swapField "DNSNames" "IANDNSNames") (swapOid oidSAN oidIAN) = true := by
   decide +kernel
 
+/-- three subjectAltName URI rules (URL parsing is a parameter of the model: the same `Env` on both sides) and their
+    issuerAltName copies -/
+theorem san_ian_uri_twins :
+    isTwin "e_ext_san_uri_relative" "e_ext_ian_uri_relative" (swapField "URIs" "IANURIs") (swapOid oidSAN oidIAN) = true
+    ∧ isTwin "e_ext_san_uri_format_invalid" "e_ext_ian_uri_format_invalid" (swapField "URIs" "IANURIs") (swapOid oidSAN oidIAN) = true
+    ∧ isTwin "e_ext_san_uri_host_not_fqdn_or_ip" "e_ext_ian_uri_host_not_fqdn_or_ip" (swapField "URIs" "IANURIs") (swapOid oidSAN oidIAN) = true := by
+  decide +kernel
+
 /-- the pairs are really in the table today (the statements above are not vacuous) -/
 example : (ruleNamed "e_prohibit_dsa_usage").isSome ∧ (ruleNamed "e_ext_ian_space_dns_name").isSome
-    ∧ (ruleNamed "e_ian_bare_wildcard").isSome ∧ (ruleNamed "e_ian_dns_name_starts_with_period").isSome := by decide +kernel
+    ∧ (ruleNamed "e_ian_bare_wildcard").isSome ∧ (ruleNamed "e_ian_dns_name_starts_with_period").isSome
+    ∧ (ruleNamed "e_ext_ian_uri_relative").isSome ∧ (ruleNamed "e_ext_ian_uri_format_invalid").isSome ∧ (ruleNamed "e_ext_ian_uri_host_not_fqdn_or_ip").isSome := by decide +kernel
 
 /-- non-vacuity: the table is populated, with rules of all three prefixes and rules that use `crit` guards -/
 example : bodyRules.length ≥ 100 ∧ bodyRules.any (fun r => prefixOfName r.nameB == 1) ∧ bodyRules.any (fun r => prefixOfName r.nameB == 2)
